@@ -146,6 +146,7 @@ def campaign(build, tier, seed, report, budget=1):
     cov["samples"] = cov["samples"][:2] + ic.get("samples", [])[:2]
     cov["skipped_inputs"] = ic.get("skipped_inputs", {})
     cov["index_classes"] = ic.get("classes", 0)
+    cov["outside_grammar_dropped"] = ic.get("outside_grammar_dropped", 0)
     return viol
 
 
